@@ -1,0 +1,56 @@
+package workerpool
+
+import "sync"
+
+// ShutdownWaitGroup counts the workers of a WorkerPool that have not terminated yet. In contrast to a sync.WaitGroup it
+// can be armed again (by a restart of the WorkerPool) while goroutines are still on their way out of Wait: Wait returns
+// as soon as the workers that were running when it was called have terminated, no matter whether new workers have been
+// started in the meantime.
+type ShutdownWaitGroup struct {
+	// pending is the number of workers that have not terminated yet.
+	pending int
+
+	// completedRuns is increased every time pending returns to zero.
+	completedRuns uint64
+
+	mutex sync.Mutex
+	cond  *sync.Cond
+}
+
+// Add adds delta (which may be negative) to the number of pending workers.
+func (s *ShutdownWaitGroup) Add(delta int) {
+	s.mutex.Lock()
+	defer s.mutex.Unlock()
+
+	if s.pending += delta; s.pending < 0 {
+		panic("workerpool: negative ShutdownWaitGroup counter")
+	}
+
+	if s.pending == 0 && delta != 0 {
+		s.completedRuns++
+
+		if s.cond != nil {
+			s.cond.Broadcast()
+		}
+	}
+}
+
+// Done decrements the number of pending workers by one.
+func (s *ShutdownWaitGroup) Done() {
+	s.Add(-1)
+}
+
+// Wait blocks until the workers that are pending at the time of the call have terminated (it returns immediately if
+// there are none).
+func (s *ShutdownWaitGroup) Wait() {
+	s.mutex.Lock()
+	defer s.mutex.Unlock()
+
+	if s.cond == nil {
+		s.cond = sync.NewCond(&s.mutex)
+	}
+
+	for observedRun := s.completedRuns; s.pending > 0 && s.completedRuns == observedRun; {
+		s.cond.Wait()
+	}
+}
